@@ -720,28 +720,21 @@ impl MutGen {
             let l = seed.toks.len() as u64;
             let mut toks: Vec<&str> = seed.toks.clone();
             let mut skip = false;
-            let edit;
-            if r == 0 {
-                edit = "seed";
-            } else {
+            if r > 0 {
                 r -= 1;
                 if r < l {
                     toks.remove(r as usize);
-                    edit = "del";
                 } else if r < 2 * l {
                     let i = (r - l) as usize;
                     toks.insert(i, seed.toks[i]);
-                    edit = "dup";
                 } else {
                     let r = r - 2 * l;
                     let i = (r / 37) as usize;
                     let a = ALPHA[(r % 37) as usize];
                     skip = toks[i] == a;
                     toks[i] = a;
-                    edit = "sub";
                 }
             }
-            let _ = edit;
             let mut a = Act::sql(seed.kind.clone(), toks.join(" "));
             a.pre = seed.pre.clone();
             a.skip = skip;
@@ -1570,6 +1563,11 @@ fn copy_dir(from: &std::path::Path, to: &std::path::Path) {
         }
     }
 }
+/// triage aid: C22_PREPARE_ONLY=1 makes a hand-started replay run the parser only
+fn prepare_only() -> bool {
+    static F: OnceLock<bool> = OnceLock::new();
+    *F.get_or_init(|| std::env::var_os("C22_PREPARE_ONLY").is_some())
+}
 /// development aid: C22_SLOW=1 prints slow cases / drops of a hand-started worker
 fn slow_log() -> bool {
     static F: OnceLock<bool> = OnceLock::new();
@@ -1765,7 +1763,7 @@ fn execute_act(env: &mut Env, act: &Act) -> Vec<(String, Out)> {
     let main = match &act.params {
         Some((ps, mode)) => exec_params(db, sql, ps, *mode),
         // triage aid: C22_PREPARE_ONLY=1 runs the parser only (Database::prepare)
-        None if std::env::var_os("C22_PREPARE_ONLY").is_some() => do_prepare(db, sql).0,
+        None if prepare_only() => do_prepare(db, sql).0,
         None => do_exec(db, sql),
     };
     let main_ok = matches!(main, Out::Rows | Out::Changed(_));
@@ -2038,7 +2036,7 @@ fn isolated(ctx: &Ctx, sub: &str, idx: u64, class: &str, info: &str, rep: &mut R
 
 /// `child`: the process runs exactly one isolated case.  It gets a smaller
 /// address space (an unbounded-growth loop then fails its allocation after ~1 s
-/// instead of racing with the watchdog) and a 60 s CPU limit, so that the way
+/// instead of racing with the watchdog) and at least a 10 s CPU limit, so that the way
 /// a known killer dies is deterministic.
 fn setup_process(child: bool) {
     // an abort path (failed allocation, stack overflow) must not spend seconds
@@ -2047,7 +2045,7 @@ fn setup_process(child: bool) {
     start_watchdog();
     limit_address_space(if child { 2 } else { 8 });
     if child {
-        WD_MIN_LIMIT.store(60_000, Ordering::Relaxed);
+        WD_MIN_LIMIT.store(10_000, Ordering::Relaxed);
     }
     install_hook();
 }
@@ -2068,7 +2066,7 @@ impl Check for C22 {
             "panic sites are named file(function) by looking up the enclosing fn in the /repo source at the panic line",
         ];
         s.cap_quick_s = 100;
-        s.cap_thorough_s = 1700;
+        s.cap_thorough_s = 1500;
         s.crash_is_verdict = true;
         vec![s]
     }
@@ -2134,7 +2132,7 @@ impl Check for C22 {
         env.db = None;
         // known killers: re-confirmed last, each in a child process
         for (k, (sub, text)) in KILL_CASES.iter().enumerate() {
-            if !ctx.mine(gid + k as u64) || ctx.opt("only").map(|o| !o.split(',').any(|x| x == *sub)).unwrap_or(false) {
+            if !ctx.mine(1_000_003 + k as u64) || ctx.opt("only").map(|o| !o.split(',').any(|x| x == *sub)).unwrap_or(false) {
                 continue;
             }
             let sd = subs.iter().find(|s| s.name == *sub).expect("sub of kill case");
